@@ -226,6 +226,9 @@ def _run(case, ctx, d, which):
         if m.traces is not None and spec.raw is not None:
             A = spec.traces_truth()
             mon.readers.register(m.traces, lambda A=A: A, label='model.traces')
+        if case['seed'][2] % 2:
+            from gen.poke import poke
+            poke(m, ctx)          # a session's read-only queries and refused requests before the export
         c = EphysAlfCreator(m)
         # refusal of the source directory
         if which == 'C13':
